@@ -15,22 +15,39 @@ import (
 // is "/"). Inside the engine the same listing is produced by the engine (not by the os
 // model), so it is an independent reference for what a file-system loader should report.
 func vfListTree(root string) []string {
-	var out []string
-	filepath.Walk(root, func(p string, info os.FileInfo, err error) error {
+	// links are listed as what they lead to: a link to a file as a file, a link to a
+	// directory as a directory (and descended into), a dangling link not at all
+	out := []string{"/"}
+	var rec func(dir, rel string, links int)
+	rec = func(dir, rel string, links int) {
+		ents, err := os.ReadDir(dir)
 		if err != nil {
-			return nil
+			return
 		}
-		rel, _ := filepath.Rel(root, p)
-		rel = "/" + filepath.ToSlash(rel)
-		if rel == "/." {
-			rel = ""
+		for _, de := range ents {
+			p, r := filepath.Join(dir, de.Name()), rel+"/"+de.Name()
+			info, err := os.Stat(p)
+			if err != nil {
+				continue
+			}
+			if !info.IsDir() {
+				out = append(out, r)
+				continue
+			}
+			out = append(out, r+"/")
+			l := links
+			if de.Type()&os.ModeSymlink != 0 {
+				l++
+			}
+			if l <= 2 {
+				rec(p, r, l)
+			}
 		}
-		if info.IsDir() {
-			rel += "/"
-		}
-		out = append(out, rel)
+	}
+	if info, err := os.Stat(root); err != nil || !info.IsDir() {
 		return nil
-	})
+	}
+	rec(root, "", 0)
 	sort.Strings(out)
 	return out
 }
